@@ -208,6 +208,206 @@ def xz_variant(rng, data):
     return lzma.compress(data, format=lzma.FORMAT_XZ, check=check, preset=preset), dict(check=check, preset=preset)
 
 
+# ---- .xz written by hand: one Stream, any number of Blocks, optional size fields in the Block
+#      Headers (what `xz -T2` writes), per the .xz file format specification 1.0.4
+def _vli(n):
+    out = bytearray()
+    while n >= 0x80:
+        out.append((n & 0x7F) | 0x80)
+        n >>= 7
+    out.append(n)
+    return bytes(out)
+
+
+_CRC64_TABLE = None
+
+
+def crc64_xz(data):
+    global _CRC64_TABLE
+    if _CRC64_TABLE is None:
+        poly = 0xC96C5795D7870F42
+        t = []
+        for i in range(256):
+            c = i
+            for _ in range(8):
+                c = (c >> 1) ^ poly if c & 1 else c >> 1
+            t.append(c)
+        _CRC64_TABLE = t
+    c = 0xFFFFFFFFFFFFFFFF
+    for b in data:
+        c = _CRC64_TABLE[(c ^ b) & 0xFF] ^ (c >> 8)
+    return c ^ 0xFFFFFFFFFFFFFFFF
+
+
+XZ_CHECKS = {"none": 0x00, "crc32": 0x01, "crc64": 0x04}
+
+
+def xz_multiblock(data, sizes, with_sizes=True, check="crc64", dict_bits=20, preset=6, size_fields=(True, True)):
+    """single-stream .xz whose Blocks hold exactly `sizes` uncompressed bytes each (all > 0).
+    with_sizes: Block Headers carry Compressed Size / Uncompressed Size (size_fields selects which)."""
+    assert sum(sizes) == len(data) and all(x > 0 for x in sizes)
+    flags = bytes([0x00, XZ_CHECKS[check]])
+    out = bytearray(b"\xFD7zXZ\x00" + flags + struct.pack("<I", zlib.crc32(flags) & M32))
+    records = []
+    pos = 0
+    prop = 2 * (dict_bits - 12) + 0          # LZMA2 dictionary size byte: 2^dict_bits
+    for sz in sizes:
+        chunk = data[pos:pos + sz]
+        pos += sz
+        co = lzma.LZMACompressor(format=lzma.FORMAT_RAW, filters=[{"id": lzma.FILTER_LZMA2, "preset": preset, "dict_size": 1 << dict_bits}])
+        comp = co.compress(chunk) + co.flush()
+        bflags = 0x00                        # one filter
+        body = b""
+        if with_sizes and size_fields[0]:
+            bflags |= 0x40
+            body += _vli(len(comp))
+        if with_sizes and size_fields[1]:
+            bflags |= 0x80
+            body += _vli(len(chunk))
+        body += _vli(0x21) + _vli(1) + bytes([prop])
+        hdr_len = 2 + len(body)
+        real = (hdr_len + 4 + 3) // 4 * 4     # with CRC32, multiple of four
+        hdr = bytes([real // 4 - 1, bflags]) + body + bytes(real - 4 - hdr_len)
+        hdr += struct.pack("<I", zlib.crc32(hdr) & M32)
+        out += hdr + comp + bytes((-len(comp)) % 4)
+        if check == "crc32":
+            out += struct.pack("<I", zlib.crc32(chunk) & M32)
+            csz = 4
+        elif check == "crc64":
+            out += struct.pack("<Q", crc64_xz(chunk))
+            csz = 8
+        else:
+            csz = 0
+        records.append((len(hdr) + len(comp) + csz, len(chunk)))
+    index = b"\x00" + _vli(len(records)) + b"".join(_vli(u) + _vli(n) for u, n in records)
+    index += bytes((-len(index)) % 4)
+    index += struct.pack("<I", zlib.crc32(index) & M32)
+    out += index
+    foot = struct.pack("<I", len(index) // 4 - 1) + flags
+    out += struct.pack("<I", zlib.crc32(foot) & M32) + foot + b"YZ"
+    blob = bytes(out)
+    assert lzma.decompress(blob) == data, "hand-written .xz does not round-trip"
+    return blob
+
+
+def xz_cli_multiblock(data, block_size, threads=2):
+    """the same class written by the xz tool itself, when it is installed"""
+    exe = shutil.which("xz")
+    if not exe:
+        return None
+    import subprocess
+    try:
+        r = subprocess.run([exe, "-T%d" % threads, "--block-size=%d" % block_size, "-c"], input=data, capture_output=True, timeout=60)
+    except Exception:
+        return None
+    if r.returncode != 0 or lzma.decompress(r.stdout) != data:
+        return None
+    return r.stdout
+
+
+def xz_block_sizes(rng, n, bs):
+    """uncompressed sizes of the xz Blocks relative to the read block size: smaller, equal, larger"""
+    style = rng.choice(["halves", "eq", "small", "large", "random"])
+    if n <= 1:
+        return [n] if n else []
+    if style == "halves":
+        a = n // 2
+        return [a, n - a]
+    unit = {"eq": bs, "small": max(1, bs // 3), "large": 2 * bs + 1}.get(style)
+    if unit:
+        out = [unit] * (n // unit) + ([n % unit] if n % unit else [])
+        return out if len(out) <= 400 else [n // 2, n - n // 2]
+    out, left = [], n
+    while left > 0:
+        x = min(left, rng.choice([1, max(1, bs - 1), bs, bs + 1, 3 * bs, rng.randrange(1, 5 * bs + 2)]))
+        out.append(x)
+        left -= x
+        if len(out) > 300:
+            out.append(left)
+            break
+    return [x for x in out if x > 0]
+
+
+def xz_any(rng, data, bs):
+    """one-block lzma.compress output, or a hand-written multi-block stream with/without size fields"""
+    r = rng.random()
+    if r < 0.3 or len(data) < 2:
+        return xz_variant(rng, data)
+    sizes = xz_block_sizes(rng, len(data), bs)
+    ws = rng.random() < 0.7
+    sf = rng.choice([(True, True), (True, True), (False, True), (True, False)])
+    check = rng.choice(["crc32", "crc64", "crc64", "none"])
+    return (xz_multiblock(data, sizes, with_sizes=ws, check=check, dict_bits=rng.choice([16, 20, 23]), preset=rng.choice([0, 6]), size_fields=sf),
+            dict(xz_blocks=len(sizes), xz_block_sizes=sizes[:20], header_sizes=ws, size_fields=list(sf), check=check))
+
+
+# ---- tar as `tar cf x.tar logs/` writes it: directory, symlink and hard-link entries before and
+#      between the regular members, nested member paths
+def tar_tree(rng, members, fmt=None, top="logs"):
+    """members: [(file name, bytes)] regular files in archive order.
+    returns (blob, [(member path, bytes)], meta)"""
+    fmt = fmt if fmt is not None else rng.choice([tarfile.USTAR_FORMAT, tarfile.GNU_FORMAT, tarfile.PAX_FORMAT])
+    subdirs = ["", "sub/", "sub/deep/", "e f/", "日本/"]
+    bio = io.BytesIO()
+    placed, layout = [], []
+    with tarfile.open(fileobj=bio, mode="w", format=fmt) as tf:
+        def add_dir(path):
+            ti = tarfile.TarInfo(path.rstrip("/"))
+            ti.type = tarfile.DIRTYPE
+            ti.mode = 0o755
+            ti.mtime = 1700000000
+            tf.addfile(ti)
+            layout.append("D")
+        def add_sym(path, target):
+            ti = tarfile.TarInfo(path)
+            ti.type = tarfile.SYMTYPE
+            ti.linkname = target
+            tf.addfile(ti)
+            layout.append("S")
+        def add_hard(path, target):
+            ti = tarfile.TarInfo(path)
+            ti.type = tarfile.LNKTYPE
+            ti.linkname = target
+            tf.addfile(ti)
+            layout.append("H")
+        add_dir(top + "/")
+        made = {""}
+        if rng.random() < 0.5:
+            add_sym(top + "/current.log", members[0][0])
+        for k, (name, body) in enumerate(members):
+            sd = rng.choice(subdirs)
+            if fmt == tarfile.USTAR_FORMAT and not sd.isascii():
+                sd = "sub/"
+            if rng.random() < 0.15 and fmt != tarfile.USTAR_FORMAT:
+                sd = "long" * 28 + "/"
+            # the directories leading to the member come first, as tar emits them
+            acc = ""
+            for part in [x for x in sd.split("/") if x]:
+                acc += part + "/"
+                if acc not in made:
+                    made.add(acc)
+                    add_dir(top + "/" + acc)
+            path = top + "/" + sd + name
+            ti = tarfile.TarInfo(path)
+            ti.size = len(body)
+            ti.mtime = 1700000000 + k
+            if fmt == tarfile.PAX_FORMAT and rng.random() < 0.5:
+                ti.pax_headers = {"comment": "c%d" % k}
+            tf.addfile(ti, io.BytesIO(body))
+            layout.append("F")
+            placed.append((path, body))
+            r = rng.random()
+            if r < 0.35:
+                add_sym(top + "/" + sd + "ln%d.log" % k, name)
+            elif r < 0.6:
+                add_hard(top + "/" + sd + "hl%d.log" % k, path)
+            elif r < 0.75:
+                add_dir(top + "/" + sd + "emptydir%d/" % k)
+        if rng.random() < 0.4:
+            add_dir(top + "/zlast/")
+    return bio.getvalue(), placed, dict(format=fmt, layout="".join(layout), members=len(members))
+
+
 def tar_variant(rng, data, member=None, nmembers=None, pos=None, fmt=None):
     fmt = fmt if fmt is not None else rng.choice([tarfile.USTAR_FORMAT, tarfile.GNU_FORMAT, tarfile.PAX_FORMAT])
     nm = nmembers or rng.randrange(1, 6)
@@ -292,7 +492,7 @@ def block_cases(ctx, scratch, quick):
                     lvl = rng.randrange(1, 10)
                     blob, meta = bz2.compress(plain, lvl), dict(level=lvl)
                 elif codec == "xz":
-                    blob, meta = xz_variant(rng, plain)
+                    blob, meta = xz_any(rng, plain, bs)
                 elif codec == "lz4":
                     style = rng.choice(["one", "aligned", "fixed", "random", "random"])
                     sched = split_sizes(rng, n, style, bs)
@@ -300,8 +500,22 @@ def block_cases(ctx, scratch, quick):
                     blob = lz4_frame(plain, sched, bd=rng.choice([4, 5, 6, 7]), content_checksum=rng.random() < 0.5,
                                      content_size=rng.random() < 0.3, stored=st, block_checksum=rng.random() < 0.3)
                     meta = dict(style=style, stored=list(st), nblocks=len(sched))
-                else:
+                elif rng.random() < 0.5:
                     blob, sub, meta = tar_variant(rng, plain)
+                else:
+                    # `tar cf x.tar logs/`: non-file entries before and between the members; the wanted
+                    # bytes first / middle / last among the regular files; EVERY regular member is read
+                    nm = rng.randrange(1, 5)
+                    pos = rng.choice([0, nm // 2, nm - 1])
+                    mem = [("m%d.log" % j, plain if j == pos else random_plain(rng, rng.choice([1, bs, bs + 1, 3 * bs, 700]))) for j in range(nm)]
+                    blob, placed, meta = tar_tree(rng, mem)
+                    meta = dict(meta, wanted_pos=pos)
+                    path = os.path.join(scratch, "b%05d.tar" % k)
+                    open(path, "wb").write(blob)
+                    for j, (mp, body) in enumerate(placed):
+                        cases.append(dict(codec=codec, bs=bs, plain=body, sched=sched, path=path + "|" + mp, meta=dict(meta, member=j)))
+                    k += 1
+                    continue
                 path = os.path.join(scratch, "b%05d.log.%s" % (k, "tar" if codec == "tar" else codec))
                 open(path, "wb").write(blob)
                 cases.append(dict(codec=codec, bs=bs, plain=plain, sched=sched, path=path + ("|" + sub if sub else ""), meta=meta))
@@ -403,6 +617,7 @@ def run_blocks(ctx, scratch, quick):
         ctx.obligation_broken("correspondence", "harness c05 run", err)
         return dict(block_cases=0)
     rows = []           # (case index, mode, coq text, results)
+    filesz_seen = set()
     seq_rows = []       # the same for one reader serving requests in any order with the drop on
     bad_new = 0
     for (ci, mode), o in zip(plan, outl):
@@ -414,8 +629,12 @@ def run_blocks(ctx, scratch, quick):
                         "BlockReader::new succeeds on a valid stored file", o[:300])
             continue
         filesz, nread, results = p
-        if filesz != len(c["plain"]):
-            ctx.failure(dict(level="block", codec=c["codec"], bs=c["bs"], n=len(c["plain"]), meta=c["meta"]), "filesz %d" % len(c["plain"]), "filesz %d" % filesz)
+        if filesz != len(c["plain"]) and ci not in filesz_seen:
+            filesz_seen.add(ci)
+            fpath = c["path"].split("|")[0]
+            ctx.failure(dict(level="block", what="uncompressed size", codec=c["codec"], bs=c["bs"], n=len(c["plain"]), plain_hex=hx(c["plain"][:20000]), meta=c["meta"],
+                             drop_enabled=mode, path=c["path"], file_hex=hx(open(fpath, "rb").read()) if os.path.getsize(fpath) <= 40000 else None),
+                        "filesz %d" % len(c["plain"]), "filesz %d" % filesz)
         (seq_rows if mode == 2 else rows).append((ci, mode, coq_case(c, nread if c["codec"] == "xz" else 0, results), results))
     hdr = vlib.COQ_PRINT_HDR + "From Coq Require Import String List NArith.\nImport ListNotations.\nFrom S4.Corr Require Import C05.\nOpen Scope string_scope.\n"
     shards = vlib.shard(list(range(len(rows))), vlib.NCPU)
@@ -458,16 +677,18 @@ def run_blocks(ctx, scratch, quick):
     seen = set()
     for ri, v in spec_dis:
         ci, mode, _, results = rows[ri]
-        if (ci, mode) in seen:
+        if ci in seen or ci in filesz_seen:
             continue
-        seen.add((ci, mode))
+        seen.add(ci)
         c = cases[ci]
         n, bs = len(c["plain"]), c["bs"]
         cls = ["lz4_frame_block_boundary_inside_read_block"] if (c["codec"] == "lz4" and lz4_misaligned(c["sched"], bs, n)) else []
         blk = v // 100
         got = [r for r in results if r[0] == blk][:1]
-        ctx.failure(dict(level="block", codec=c["codec"], bs=bs, n=n, plain_hex=hx(c["plain"][:4000]), lz4_internal_block_sizes=c["sched"][:60] if c["codec"] == "lz4" else None,
-                         meta=c["meta"], drop_enabled=mode, block=blk),
+        fpath = c["path"].split("|")[0]
+        ctx.failure(dict(level="block", codec=c["codec"], bs=bs, n=n, plain_hex=hx(c["plain"][:20000]), lz4_internal_block_sizes=c["sched"][:60] if c["codec"] == "lz4" else None,
+                         meta=c["meta"], drop_enabled=mode, block=blk, path=c["path"],
+                         file_hex=hx(open(fpath, "rb").read()) if os.path.getsize(fpath) <= 40000 else None),
                     "block %d = %s" % (blk, hx(c["plain"][blk * bs:(blk + 1) * bs])[:200] or "Done"),
                     "kind %s %s" % (got[0][1], got[0][2][:200]) if got else "?", cls)
     hist = {}
@@ -539,6 +760,25 @@ def write_forms(ctx, scratch, base, suffix, plain, forms, lz4_styles=("one",), b
             continue
         open(q, "wb").write(blob)
         out[f] = (q, dict(meta=meta))
+    if "xz" in forms and len(plain) >= 2:
+        n = len(plain)
+        unit = 100 if n <= 40000 else max(100, n // 7)
+        variants = [("xzmb_halves", [n // 2, n - n // 2], True, (True, True), "crc64"),
+                    ("xzmb_unit", [unit] * (n // unit) + ([n % unit] if n % unit else []), True, rng.choice([(True, True), (False, True), (True, False)]), "crc32"),
+                    ("xzmb_nosz", xz_block_sizes(rng, n, rng.choice([64, 100, 4096])), False, (False, False), rng.choice(["none", "crc64"]))]
+        for lab2, sizes, ws, sf, chk in variants:
+            dd = os.path.join(d, lab2)
+            os.makedirs(dd, exist_ok=True)
+            q = os.path.join(dd, name + ".xz")
+            open(q, "wb").write(xz_multiblock(plain, sizes, with_sizes=ws, check=chk, size_fields=sf, dict_bits=rng.choice([16, 20, 23])))
+            out[lab2] = (q, dict(xz_block_sizes=sizes[:30], xz_blocks=len(sizes), header_sizes=ws, size_fields=list(sf), check=chk))
+        blob = xz_cli_multiblock(plain, max(4096, n // 3)) if n > 8192 else None
+        if blob:
+            dd = os.path.join(d, "xz_cli")
+            os.makedirs(dd, exist_ok=True)
+            q = os.path.join(dd, name + ".xz")
+            open(q, "wb").write(blob)
+            out["xz_cli"] = (q, dict(writer="xz -T2 --block-size=%d" % max(4096, n // 3)))
     if any(f.startswith("lz4") for f in forms):
         for style in lz4_styles:
             sizes = split_sizes(rng, len(plain), style, bs_for_lz4)
@@ -552,10 +792,51 @@ def write_forms(ctx, scratch, base, suffix, plain, forms, lz4_styles=("one",), b
     return out
 
 
+def msg_offsets(plain):
+    """[(byte offset, epoch second)] of the dated lines of a text payload written by text_log"""
+    import calendar, re, time
+    out, off = [], 0
+    for ln in plain.split(b"\n"):
+        m = re.match(rb"(\d{4}-\d\d-\d\d \d\d:\d\d:\d\d) ", ln)
+        if m:
+            out.append((off, calendar.timegm(time.strptime(m.group(1).decode(), "%Y-%m-%d %H:%M:%S"))))
+        off += len(ln) + 1
+    return out
+
+
+def write_tree_group(ctx, scratch, lab, suf, plain, kind, k):
+    """an archive as `tar cf x.tar logs/` writes it (directory / symlink / hard-link entries before and
+    between the members) holding the payload and two companions; reference = the members' bytes as
+    plain files, named in member order.  Returns (plain paths, tar path, info)."""
+    rng = ctx.rng
+    pos = k % 3          # wanted member first / middle / last among the regular files
+    others = []
+    for j in range(2):
+        if kind == "text":
+            others.append(text_log(rng, rng.choice([1, 3, 30]), "companion%d" % j)[0])
+        else:
+            others.append(utmp_file(rng, rng.choice([1, 2, 5])))
+    bodies = others[:]
+    bodies.insert(pos, plain)
+    members = [("m%d%s" % (j, suf), b) for j, b in enumerate(bodies)]
+    fmt = [tarfile.USTAR_FORMAT, tarfile.GNU_FORMAT, tarfile.PAX_FORMAT][(k // 3) % 3]
+    blob, placed, meta = tar_tree(rng, members, fmt=fmt)
+    d = os.path.join(scratch, lab + "_tree")
+    os.makedirs(d, exist_ok=True)
+    paths = []
+    for name, b in members:
+        q = os.path.join(d, name)
+        open(q, "wb").write(b)
+        paths.append(q)
+    t = os.path.join(d, "x.tar")
+    open(t, "wb").write(blob)
+    return paths, t, dict(meta=dict(meta, wanted_pos=pos), members=[m[0] for m in placed])
+
+
 def e2e(ctx, scratch, quick):
     rng = ctx.rng
     payloads = []   # (label, suffix, plain bytes, times or None, kind)
-    text_sizes = [0, 1, 2, 3, 8, 40, 200] + ([] if quick else [5, 20, 90, 1000])
+    text_sizes = [0, 1, 3, 8, 40, 200] + ([] if quick else [2, 5, 20, 90, 1000])
     for j, nl in enumerate(text_sizes):
         b, times = text_log(rng, nl, "t%d" % j)
         payloads.append(("text%d" % j, ".log", b, times, "text"))
@@ -577,11 +858,12 @@ def e2e(ctx, scratch, quick):
     if os.path.exists(jx):
         payloads.append(("journalfx", ".journal", lzma.decompress(open(jx, "rb").read()), None, "journal"))
 
-    runs = []       # (payload label, form label, path, args, class info)
+    runs = []       # (payload label, form label, [paths], args, class info, blocksz, size, kind)
+    tree_k = 0
     blockszs_text = [64, 100, 4096, 65536] if quick else [64, 65, 100, 512, 1000, 4096, 65536, 0x20000]
     for lab, suf, plain, times, kind in payloads:
         if kind == "text":
-            forms = write_forms(ctx, scratch, lab, suf, plain, ["gz", "bz2", "xz", "tar", "lz4"] + (["tarpipe"] if lab in ("text4", "text5") else []),
+            forms = write_forms(ctx, scratch, lab, suf, plain, ["gz", "bz2", "xz", "tar", "lz4"] + (["tarpipe"] if lab in ("text3", "text4") else []),
                                 lz4_styles=("one", "aligned", "random"), bs_for_lz4=4096)
             bss = blockszs_text
         elif kind == "utmp":
@@ -605,10 +887,25 @@ def e2e(ctx, scratch, quick):
                      ["-a", "+%d" % (hi + 1)], ["-b", "+%d" % (lo - 1)], ["-a", "+%d" % hi, "-b", "+%d" % hi]]
             if kind in ("evtx", "journal") or quick:
                 wins = wins[:4] if kind in ("evtx", "journal") else wins
+            if kind == "text":
+                # windows that select only the messages of the 2nd / of the last xz Block
+                mo = msg_offsets(plain)
+                n = len(plain)
+                for boundary in (n // 2, ((n - 1) // 100) * 100):
+                    later = [t for off, t in mo if off >= boundary]
+                    if later and ["-a", "+%d" % later[0]] not in wins:
+                        wins.append(["-a", "+%d" % later[0]])
+        tree = None
+        if kind in ("text", "utmp") and len(plain) > 0:
+            tree = write_tree_group(ctx, scratch, lab, suf, plain, kind, tree_k)
+            tree_k += 1
         for bs in bss:
             for w in wins:
                 for flab, (path, info) in forms.items():
-                    runs.append((lab, flab, path, ["--blocksz", str(bs)] + w, info, bs, len(plain), kind))
+                    runs.append((lab, flab, [path], ["--blocksz", str(bs)] + w, info, bs, len(plain), kind))
+                if tree:
+                    runs.append((lab + "@tree", "plain", tree[0], ["--blocksz", str(bs)] + w, None, bs, len(plain), kind))
+                    runs.append((lab + "@tree", "tartree", [tree[1]], ["--blocksz", str(bs)] + w, tree[2], bs, len(plain), kind))
     # lz4 frames written by the lz4_flex crate: 64 KiB internal blocks
     big, times = text_log(rng, 2600 if quick else 6000, "big")
     d = os.path.join(scratch, "bigflex")
@@ -622,13 +919,13 @@ def e2e(ctx, scratch, quick):
         sizes = [65536] * (len(big) // 65536) + ([len(big) % 65536] if len(big) % 65536 else [])
         for bs in [65536, 32768, 0x20000, 1000]:
             for w in ([], ["-a", "+%d" % times[len(times) // 2]]):
-                runs.append(("bigflex", "plain", src, ["--blocksz", str(bs)] + w, None, bs, len(big), "text"))
-                runs.append(("bigflex", "lz4_flex", dst, ["--blocksz", str(bs)] + w, dict(lz4_sizes=sizes), bs, len(big), "text"))
+                runs.append(("bigflex", "plain", [src], ["--blocksz", str(bs)] + w, None, bs, len(big), "text"))
+                runs.append(("bigflex", "lz4_flex", [dst], ["--blocksz", str(bs)] + w, dict(lz4_sizes=sizes), bs, len(big), "text"))
     else:
         ctx.obligation_broken("correspondence", "harness c05 lz4enc (end to end)", err)
 
     def one(r):
-        return s4(r[3] + [r[2]], timeout=180)
+        return s4(r[3] + r[2], timeout=180)
     with ThreadPoolExecutor(max_workers=vlib.NCPU) as ex:
         outs = list(ex.map(one, runs))
     ref = {}
@@ -648,7 +945,7 @@ def e2e(ctx, scratch, quick):
         form_hist[flab] = form_hist.get(flab, 0) + 1
         kind_hist[kind] = kind_hist.get(kind, 0) + 1
         if o[0] == 124 or p[0] == 124:
-            ctx.failure(dict(level="stdout", payload=lab, form=flab, args=args, path=path), "terminates", "timeout")
+            ctx.failure(dict(level="stdout", payload=lab, form=flab, args=args, path=path, plain_path=ref_path(runs, lab)), "terminates", "timeout")
             continue
         if o[1] == p[1]:
             if p[1]:
@@ -669,8 +966,10 @@ def e2e(ctx, scratch, quick):
             cls.append("fixedstruct_streamed_multi_block")
         fail_hist[(kind, flab, bs, bool(cls))] = fail_hist.get((kind, flab, bs, bool(cls)), 0) + 1
         if True:
-            ctx.failure(dict(level="stdout", payload=lab, kind=kind, form=flab, args=args, path=path, plain_path=ref_path(runs, lab),
-                             n=n, blocksz=bs, info=info, plain_hex=(hx(open(ref_path(runs, lab), "rb").read()) if n <= 6000 else None)),
+            rp = ref_path(runs, lab)
+            ctx.failure(dict(level="stdout", payload=lab, kind=kind, form=flab, args=args, path=path, plain_path=rp,
+                             n=n, blocksz=bs, info=info,
+                             files_hex=({os.path.basename(q): hx(open(q, "rb").read()) for q in rp + path} if sum(os.path.getsize(q) for q in rp + path) <= 40000 else None)),
                         "stdout of the plain file (%d bytes, sha %s)" % (len(p[1]), vlib.hashlib.sha1(p[1]).hexdigest()[:12]),
                         "stdout %d bytes, sha %s, rc %d" % (len(o[1]), vlib.hashlib.sha1(o[1]).hexdigest()[:12], o[0]), cls)
     return dict(stdout_runs=len(runs), stdout_comparisons=compared, stdout_agree_nonempty=agree_nonempty, stdout_agree_empty=agree_empty,
@@ -705,6 +1004,12 @@ def run(ctx):
     t1 = time.time()
     cov.update(e2e(ctx, scratch, quick))
     cov["phase_seconds"] = dict(blocks=round(t1 - t0, 1), end_to_end=round(time.time() - t1, 1))
+    order, seen_lv = [], {}
+    for f in ctx.failures:
+        lv = f["case"].get("level")
+        seen_lv[lv] = seen_lv.get(lv, 0) + 1
+        order.append((seen_lv[lv], 0 if lv == "stdout" else 1))
+    ctx.failures = [f for _, f in sorted(zip(order, ctx.failures), key=lambda t: t[0])]
     ctx.coverage.update(cov)
     ctx.coverage.update(
         evaluations=cov.get("block_results_compared", 0) + cov.get("stdout_comparisons", 0),
@@ -722,28 +1027,46 @@ def run(ctx):
 
 
 def replay(ctx, path):
+    """re-run the recorded failing inputs.  The failing run's files are kept under replays/C05-files/
+    (small ones are also embedded in the replay as hex and re-created when missing)."""
     r = json.load(open(path))
     ok, log = vlib.build_harness("c05")
     ok2, log2 = vlib.build_s4()
-    scratch = vlib.scratch_dir("C05replay")
     bad = 0
     for f in r.get("failures", []):
         c = f["case"]
-        if c.get("level") == "stdout" and c.get("plain_hex") is not None:
-            plain = bytes.fromhex(c["plain_hex"])
-            src = c["plain_path"] if os.path.exists(c.get("plain_path") or "") else None
-            if os.path.exists(c["path"]) and src:
-                a = s4(c["args"] + [src])
-                b = s4(c["args"] + [c["path"]])
-                print("replay stdout %s %s: plain %d bytes, stored %d bytes, equal=%s" % (c["form"], c["args"], len(a[1]), len(b[1]), a[1] == b[1]))
+        if c.get("level") == "stdout":
+            plain_paths, stored = c.get("plain_path") or [], c.get("path") or []
+            for q in plain_paths + stored:
+                if not os.path.exists(q) and c.get("files_hex") and os.path.basename(q) in c["files_hex"]:
+                    os.makedirs(os.path.dirname(q), exist_ok=True)
+                    open(q, "wb").write(bytes.fromhex(c["files_hex"][os.path.basename(q)]))
+            if all(os.path.exists(q) for q in plain_paths + stored):
+                a = s4(c["args"] + plain_paths)
+                b = s4(c["args"] + stored)
+                print("replay stdout form=%s args=%s files=%s: plain %d bytes, stored %d bytes, equal=%s" % (c.get("form"), c["args"], stored, len(a[1]), len(b[1]), a[1] == b[1]))
                 if a[1] != b[1]:
                     bad += 1
             else:
                 print("replay: files of the failing run are gone; re-run ./check C05 with VERIF_SEED=%s" % r.get("seed"))
                 bad += 1
         elif c.get("level") == "block":
-            print("replay block-level case codec=%s bs=%s n=%s block=%s: re-run ./check C05 with VERIF_SEED=%s" % (c.get("codec"), c.get("bs"), c.get("n"), c.get("block"), r.get("seed")))
-            bad += 1
+            p = c.get("path")
+            if p and not os.path.exists(p.split("|")[0]) and c.get("file_hex"):
+                os.makedirs(os.path.dirname(p.split("|")[0]), exist_ok=True)
+                open(p.split("|")[0], "wb").write(bytes.fromhex(c["file_hex"]))
+            if p and os.path.exists(p.split("|")[0]) and len(c["plain_hex"]) == 2 * c["n"]:
+                nb = (c["n"] + c["bs"] - 1) // c["bs"]
+                outl, err = vlib.harness("c05", ["blocks\t%s\t%d\t%d\t%d\t%s" % (hx(p.encode()), FTA[c["codec"]], c["bs"], 1 if c.get("drop_enabled") else 0, ",".join(map(str, range(nb + 1))))])
+                plain = bytes.fromhex(c["plain_hex"])
+                got = parse_blocks(outl[0]) if outl else None
+                okb = got is not None and got[0] == c["n"] and all((k == 0 and bytes.fromhex(h) == plain[i * c["bs"]:(i + 1) * c["bs"]]) if i < nb else k == 1 for i, k, h in got[2])
+                print("replay block-level codec=%s bs=%s n=%s file=%s: blocks equal chunk = %s" % (c["codec"], c["bs"], c["n"], p, okb))
+                if not okb:
+                    bad += 1
+            else:
+                print("replay block-level case codec=%s bs=%s n=%s block=%s: file gone; re-run ./check C05 with VERIF_SEED=%s" % (c.get("codec"), c.get("bs"), c.get("n"), c.get("block"), r.get("seed")))
+                bad += 1
     if bad:
         print("VIOLATION property=C05 replay=%s" % path)
         return 1
